@@ -492,7 +492,8 @@ def run(chk: Check) -> None:
         "(payload value null), annotated properties (default on required / optional, inline enum, format date - what the emitted field accepts) "
         "and non-injective discriminator mappings (two values -> one variant); history replays decode another union with "
         "an equal (property, value -> class name) table first through the same converter module (direct: same-named make_dataclass families; "
-        "generated: two clients sharing one core package); the position through which the union value is reached is a dimension "
+        "generated: two clients sharing one core package) or the reversed undiscriminated union over the SAME variant classes (direct: same class "
+        "objects; generated: a second union PetB in the same document, decoded first); the position through which the union value is reached is a dimension "
         "(generated: response root, direct field, inline array, NAMED array alias as field and as root, inline map, NAMED map alias, array of "
         "arrays, non-required field / array, union declared with and without type: object - 3 fixed + 4 hash-rotated positions per union; "
         "direct: top/field/list + one of Optional / Dict[str,U] / List[List[U]]); non-trivial = distinct union with >=2 variants"
@@ -541,7 +542,7 @@ def run(chk: Check) -> None:
     # one document may hold SEVERAL unions over the same variant set in different orders, and decoding is a history
     # inside one process: the reversed undiscriminated union over the same classes is decoded first, then this one
     perm = [d for fam in ("obj", "mixed", "disc") for d in fams[fam]
-            if len(d["u"]["vars"]) == 2 and d["u"]["disc"]["mode"] in ("none", "complete") and (thorough or stable_hash("perm" + ukey(d["u"]), chk.seed) % 2 == 0)]
+            if len(d["u"]["vars"]) == 2 and d["u"]["disc"]["mode"] in ("none", "complete") and (thorough or stable_hash("perm" + ukey(d["u"]), chk.seed) % 3 == 0)]
     groups.append(("history-perm", perm, 2, "perm"))
     replay_direct(chk, groups)
     replay_generated(chk, pick_generated(chk, fams, 300 if thorough else 200), "generated")
